@@ -57,6 +57,7 @@ struct SSpec {
     uint32_t v = 0;
   };
   uint64_t hash(const State& s) const { return (uint64_t)s.v * 7 + 3; }
+  bool equal(const State& a, const State& b) const { return a.v == b.v; }
   int alternatives(const Op&) const { return 1; }
   bool apply(State& s, const Op& o, int = 0) const {
     switch (o.kind) {
@@ -179,10 +180,14 @@ struct SLHarness {
     SSpec::State init;
     lin::Checker<SSpec> chk(spec, all);
     if (!chk.run(init)) {
+      vrt::desc("pred:");
+      for (size_t i = 0; i < all.size(); ++i) vrt::desc(" %lx", (unsigned long)chk.pred[i]);
+      vrt::desc(" nodes=%lu memo=%zu\n", (unsigned long)chk.nodes, chk.memo.size());
       vrt::desc("history (not linearizable):\n");
       for (auto& o : all)
-        vrt::desc("  t%d %s v=%u old=%u [%lu,%lu]\n", o.tid, o.kind == S_STORE ? "store" : o.kind == S_UPDATE ? "update" : "load ->", o.v, o.old,
-                  (unsigned long)o.inv.step, (unsigned long)o.resp.step);
+        vrt::desc("  t%d %s v=%u old=%u [%lu,%lu] inv.vc[%u %u %u %u %u %u] resp.vc[%u %u %u %u %u %u]\n", o.tid, o.kind == S_STORE ? "store" : o.kind == S_UPDATE ? "update" : "load ->", o.v, o.old,
+                  (unsigned long)o.inv.step, (unsigned long)o.resp.step, o.inv.vc[0], o.inv.vc[1], o.inv.vc[2], o.inv.vc[3], o.inv.vc[4], o.inv.vc[5], o.resp.vc[0],
+                  o.resp.vc[1], o.resp.vc[2], o.resp.vc[3], o.resp.vc[4], o.resp.vc[5]);
       vrt::fail("not_linearizable", "history of %zu store/update/load operations has no linearization w.r.t. an atomic register (longest consistent prefix: %zu)",
                 all.size(), chk.deepest_order.size());
     }
